@@ -448,3 +448,480 @@ func mutate(r *Rand, q string) string {
 	}
 	return q + " " + pick(r, junk)
 }
+
+// ---------------------------------------------------------------- extended expression generator (EVAL)
+//
+// X* methods generate expressions for the evaluator groups: every scalar function with
+// arguments of its documented types, constant and row-dependent arguments, aliases at any
+// position (function arguments included), `in` over literal lists / list-valued calls / list
+// aliases, `[n]` on every list kind and JSON navigation.  With g.Wild > 0 an argument is
+// drawn, with probability Wild/100, from ANY type (Check does not type function arguments, so
+// such statements are accepted and fail - or not - at execution): correspondence only.
+
+type XGen struct {
+	*Gen
+	Wild     int  // percent of ill-typed/odd constructions
+	JsonVals bool // values of the store are JSON documents
+	hasFA    bool // a field access was generated (C14 exempts those)
+	numStr   []string
+}
+
+func NewXGen(r *Rand, o GenOpts) *XGen {
+	return &XGen{Gen: NewGen(r, o), numStr: []string{"1", "2", "10", "-3", "7", "1.5", "0.25", "2.0"}}
+}
+
+func (g *XGen) wild() bool { return g.Wild > 0 && g.r.Intn(100) < g.Wild }
+
+// XAny: an expression of any scalar type
+func (g *XGen) XAny(d int) string {
+	switch g.r.Intn(4) {
+	case 0:
+		return g.XNum(d)
+	case 1:
+		if g.wild() {
+			return g.XBool(d)
+		}
+		return g.XStr(d)
+	default:
+		return g.XStr(d)
+	}
+}
+
+func (g *XGen) xTextArg(d int) string {
+	if g.wild() {
+		switch g.r.Intn(4) {
+		case 0:
+			return g.XNum(d)
+		case 1:
+			return g.XBool(d)
+		case 2:
+			return g.XList(d)
+		default:
+			return "json(value)"
+		}
+	}
+	return g.XStr(d)
+}
+
+func (g *XGen) xNumArg(d int) string {
+	if g.wild() {
+		switch g.r.Intn(3) {
+		case 0:
+			return g.XStr(d)
+		case 1:
+			return g.XBool(d)
+		default:
+			return g.XList(d)
+		}
+	}
+	return g.XNum(d)
+}
+
+func (g *XGen) xSep() string {
+	return quote(pick(g.r, []string{",", "-", "a", "", ", ", "ab"}))
+}
+
+func (g *XGen) XStr(d int) string {
+	if d <= 0 || g.r.Chance(1, 3) {
+		switch g.r.Intn(7) {
+		case 0, 1:
+			return g.kw("key")
+		case 2, 3:
+			return g.kw("value")
+		case 4:
+			if a, ok := g.aliasOf("str"); ok {
+				return a
+			}
+			return g.strLit(false)
+		default:
+			return g.strLit(g.r.Bool())
+		}
+	}
+	switch g.r.Intn(12) {
+	case 0:
+		g.note("lower")
+		return g.kw("lower") + "(" + g.xTextArg(d-1) + ")"
+	case 1:
+		g.note("upper")
+		return "upper(" + g.xTextArg(d-1) + ")"
+	case 2:
+		g.note("str")
+		return "str(" + g.XAny(d-1) + ")"
+	case 3:
+		g.note("substr")
+		var s, e string
+		if g.r.Chance(1, 3) {
+			s, e = g.xNumArg(d-1), g.xNumArg(d-1)
+		} else {
+			a := g.r.Intn(4)
+			s, e = fmt.Sprint(a), fmt.Sprint(a+g.r.Intn(4)-1)
+			if e == "-1" {
+				e = "0"
+			}
+		}
+		return "substr(" + g.xTextArg(d-1) + ", " + s + ", " + e + ")"
+	case 4, 5:
+		g.note("concat")
+		return "(" + g.XStr(d-1) + " + " + g.XStr(d-1) + ")"
+	case 6:
+		g.note("join")
+		n := 1 + g.r.Intn(3)
+		if g.wild() {
+			n = g.r.Intn(2)
+		}
+		sep := g.xSep()
+		if g.r.Chance(1, 5) {
+			sep = g.XStr(0)
+		}
+		if g.wild() {
+			sep = g.XNum(0)
+		}
+		p := []string{sep}
+		for i := 0; i < n; i++ {
+			p = append(p, g.XAny(d-1))
+		}
+		if g.wild() && g.r.Chance(1, 3) {
+			p = nil
+		}
+		return "join(" + strings.Join(p, ", ") + ")"
+	case 7:
+		g.note("json-nav")
+		g.hasFA = true
+		src := "value"
+		if g.r.Chance(1, 4) {
+			src = g.XStr(d - 1)
+		}
+		switch g.r.Intn(6) {
+		case 0:
+			return "json(" + src + ")['a']"
+		case 1:
+			return "json(" + src + ")['o']['b']"
+		case 2:
+			return fmt.Sprintf("json("+src+")['l'][%d]", g.r.Intn(4))
+		case 3:
+			return "json(" + src + ")['s']"
+		case 4:
+			return fmt.Sprintf("json("+src+")['o']['l'][%d]", g.r.Intn(3))
+		default:
+			return "json(" + src + ")[" + quote(pick(g.r, []string{"a", "b", "zz", "n", "t"})) + "]"
+		}
+	case 8:
+		g.note("list-index")
+		g.hasFA = true
+		return fmt.Sprintf("%s[%d]", g.XList(d-1), g.r.Intn(4))
+	case 9:
+		if g.wild() {
+			// constructions Check lets through: odd field names after a field access, unknown functions, wrong arity
+			g.hasFA = true
+			switch g.r.Intn(5) {
+			case 0:
+				return "json(value)['a'][key]"
+			case 1:
+				return pick(g.r, []string{"foo", "uper", "count"}) + "(" + g.XStr(d-1) + ")"
+			case 2:
+				return "upper(" + g.XStr(d-1) + ", " + g.XStr(d-1) + ")"
+			case 3:
+				return "lower()"
+			default:
+				return "json(value)['l']['x']"
+			}
+		}
+		return g.XStr(d - 1)
+	default:
+		return g.XStr(0)
+	}
+}
+
+func (g *XGen) xFloatLit() string {
+	return pick(g.r, []string{"0.5", "1.5", "2.0", "0.25", "10.0", "3.75"})
+}
+
+func (g *XGen) XNum(d int) string {
+	if d <= 0 || g.r.Chance(1, 3) {
+		switch g.r.Intn(6) {
+		case 0, 1:
+			return g.intLit()
+		case 2:
+			g.note("float-lit")
+			return g.xFloatLit()
+		case 3:
+			if a, ok := g.aliasOf("num"); ok {
+				return a
+			}
+			return g.intLit()
+		case 4:
+			g.note("int(value)")
+			return "int(value)"
+		default:
+			g.note("float(value)")
+			return "float(value)"
+		}
+	}
+	switch g.r.Intn(11) {
+	case 0:
+		g.note("int")
+		return "int(" + g.xNumText(d-1) + ")"
+	case 1:
+		g.note("float")
+		return "float(" + g.xNumText(d-1) + ")"
+	case 2:
+		g.note("strlen")
+		return "strlen(" + g.XAny(d-1) + ")"
+	case 3:
+		g.note("len")
+		if g.wild() {
+			return "len(" + g.XAny(d-1) + ")"
+		}
+		return "len(" + g.XList(d-1) + ")"
+	case 4, 5, 6:
+		op := pick(g.r, []string{"+", "-", "*", "/"})
+		g.note("arith" + op)
+		r := g.XNum(d - 1)
+		if op == "/" && !g.r.Chance(1, 4) {
+			r = pick(g.r, []string{"1", "2", "3", "0.5"})
+		}
+		return "(" + g.XNum(d-1) + " " + op + " " + r + ")"
+	case 7:
+		g.note("l2_distance")
+		return "l2_distance(" + g.xVec(d-1) + ", " + g.xVec(d-1) + ")"
+	case 8:
+		g.note("cosine_distance")
+		return "cosine_distance(" + g.xVec(d-1) + ", " + g.xVec(d-1) + ")"
+	case 9:
+		if g.wild() {
+			return pick(g.r, []string{"int()", "len(key, key)", "float(key, 1)", "sum(int(value))"})
+		}
+		return g.XNum(d - 1)
+	default:
+		return g.XNum(0)
+	}
+}
+
+// a list-typed argument for the distance functions (mostly length 2-3 so that lengths agree often)
+func (g *XGen) xVec(d int) string {
+	if g.wild() {
+		return g.XAny(d)
+	}
+	switch g.r.Intn(6) {
+	case 0:
+		return "split(value, ',')"
+	case 1:
+		if a, ok := g.aliasOf("list:num"); ok {
+			return a
+		}
+		fallthrough
+	case 2:
+		return "list(" + g.XNum(0) + ", " + g.XNum(0) + ")"
+	case 3:
+		return "float_list(" + g.XNum(0) + ", " + g.xFloatLit() + ")"
+	case 4:
+		return "int_list(" + g.intLit() + ", " + g.XNum(0) + ", " + g.intLit() + ")"
+	default:
+		return "flist(" + g.xFloatLit() + ", " + g.xFloatLit() + ", " + g.XNum(0) + ")"
+	}
+}
+
+// a text or number expression that reads as a number
+func (g *XGen) xNumText(d int) string {
+	if g.wild() {
+		return g.XAny(d)
+	}
+	switch g.r.Intn(6) {
+	case 0:
+		return quote(pick(g.r, g.numStr))
+	case 1:
+		return g.XNum(d)
+	case 2:
+		return "str(" + g.XNum(d) + ")"
+	case 3:
+		return g.kw("key")
+	default:
+		return g.kw("value")
+	}
+}
+
+// XList: a list-valued expression of any element type
+func (g *XGen) XList(d int) string {
+	if g.r.Chance(1, 3) {
+		return g.XListOf(d, "str")
+	}
+	return g.XListOf(d, "num")
+}
+
+// XListOf: a list-valued expression whose elements are texts ("str": split) or numbers ("num")
+func (g *XGen) XListOf(d int, elem string) string {
+	if a, ok := g.aliasOf("list:" + elem); ok && g.r.Chance(1, 4) {
+		return a
+	}
+	if elem == "str" {
+		g.note("split")
+		sep := g.xSep()
+		if g.wild() {
+			sep = g.XNum(0)
+		}
+		return "split(" + g.xTextArg(d-1) + ", " + sep + ")"
+	}
+	switch g.r.Intn(7) {
+	case 0, 1:
+		g.note("int_list")
+		a := g.XNum(d - 1)
+		if g.r.Chance(1, 4) {
+			a = g.xNumText(d - 1)
+		}
+		return pick(g.r, []string{"int_list", "ilist"}) + "(" + a + ", " + g.XNum(0) + ")"
+	case 2:
+		g.note("float_list")
+		return pick(g.r, []string{"float_list", "flist"}) + "(" + g.XNum(d-1) + ", " + g.xFloatLit() + ")"
+	case 3:
+		g.note("list-int")
+		return "list(" + g.intLit() + ", " + g.XNum(0) + ", " + g.intLit() + ")"
+	case 4:
+		g.note("list-float")
+		return "list(" + g.xFloatLit() + ", " + g.XNum(0) + ")"
+	case 5:
+		if g.wild() {
+			g.note("list-text")
+			return "list(" + g.xNumText(0) + ", " + quote(pick(g.r, g.numStr)) + ")"
+		}
+		fallthrough
+	default:
+		if g.wild() {
+			return pick(g.r, []string{"list()", "int_list()", "flist()", "split(key)", "list(key, 1)"})
+		}
+		g.note("list-int")
+		return "list(" + g.XNum(0) + ")"
+	}
+}
+
+func (g *XGen) xItems(typ string, d int) string {
+	n := 1 + g.r.Intn(3)
+	it := make([]string, n)
+	for i := range it {
+		switch {
+		case g.wild():
+			it[i] = g.XAny(0)
+		case typ == "str":
+			if g.r.Chance(1, 3) {
+				it[i] = g.XStr(d)
+			} else {
+				it[i] = g.strLit(g.r.Bool())
+			}
+		default:
+			if g.r.Chance(1, 3) {
+				it[i] = g.XNum(d)
+			} else {
+				it[i] = g.intLit()
+			}
+		}
+	}
+	return "(" + strings.Join(it, ", ") + ")"
+}
+
+func (g *XGen) XBool(d int) string {
+	if d <= 0 || g.r.Chance(1, 4) {
+		switch g.r.Intn(8) {
+		case 0:
+			return g.KeyAtom()
+		case 1, 2:
+			op := pick(g.r, []string{"=", "!=", "^=", "<", ">=", ">", "<="})
+			g.note("str" + op)
+			return g.XStr(d-1) + " " + op + " " + g.XStr(d-1)
+		case 3, 4:
+			op := pick(g.r, []string{"=", "!=", "<", ">=", ">", "<="})
+			g.note("num" + op)
+			return g.XNum(d-1) + " " + op + " " + g.XNum(d-1)
+		case 5:
+			g.note("is_int")
+			return pick(g.r, []string{"is_int", "is_float"}) + "(" + g.XAny(d-1) + ")"
+		case 6:
+			if a, ok := g.aliasOf("bool"); ok {
+				return "(" + a + " " + pick(g.r, []string{"&", "|", "and", "or"}) + " " + g.KeyAtom() + ")"
+			}
+			fallthrough
+		default:
+			g.note("regex")
+			pat := pick(g.r, []string{"^a", "b$", "1", "^k[0-9]$", ".", "^$", "", "a.c", "[0-9][0-9]", "^1.5$"})
+			if g.wild() {
+				pat = pick(g.r, []string{"(", "[", "*a", "?", ")"})
+			}
+			return g.XStr(d-1) + " ~= " + quote(pat)
+		}
+	}
+	switch g.r.Intn(10) {
+	case 0, 1:
+		g.note("and")
+		return "(" + g.XBool(d-1) + " " + g.and() + " " + g.XBool(d-1) + ")"
+	case 2, 3:
+		g.note("or")
+		return "(" + g.XBool(d-1) + " " + g.or() + " " + g.XBool(d-1) + ")"
+	case 4:
+		g.note("not")
+		if g.wild() {
+			return "!(" + pick(g.r, []string{"key ^= 1", "key(1)", "f1 = 'a'", "key", "1 + 'a'", "'x'('y')"}) + ")"
+		}
+		return "!(" + g.XBool(d-1) + ")"
+	case 5, 6:
+		g.note("in")
+		switch g.r.Intn(5) {
+		case 0:
+			return g.XStr(d-1) + " " + g.kw("in") + " " + g.xItems("str", d-1)
+		case 1:
+			return g.XNum(d-1) + " in " + g.xItems("num", d-1)
+		case 2:
+			return g.XStr(d-1) + " in " + g.XListOf(d-1, "str")
+		case 3:
+			return g.XNum(d-1) + " in " + g.XListOf(d-1, "num")
+		default:
+			if a, ok := g.aliasOf("list:str"); ok && g.r.Bool() {
+				return g.XStr(d-1) + " in " + a
+			}
+			if a, ok := g.aliasOf("list:num"); ok {
+				return g.XNum(d-1) + " in " + a
+			}
+			return g.XStr(d-1) + " in split(value, ',')"
+		}
+	case 7, 8:
+		g.note("between")
+		if g.r.Bool() {
+			lo, hi := g.strLit(true), g.strLit(true)
+			if g.r.Chance(1, 3) {
+				lo, hi = g.XStr(d-1), g.XStr(d-1)
+			}
+			return g.XStr(d-1) + " between " + lo + " and " + hi
+		}
+		lo, hi := g.intLit(), g.intLit()
+		if g.r.Chance(1, 3) {
+			lo, hi = g.XNum(d-1), g.XNum(d-1)
+		}
+		return g.XNum(d-1) + " between " + lo + " and " + hi
+	default:
+		return g.XBool(0)
+	}
+}
+
+// XFields: `E1 as f1, E2 as f2, …` with every field named, of mixed types (list-typed included)
+func (g *XGen) XFields(n int) []string {
+	var fs []string
+	for i := 0; i < n; i++ {
+		var e, typ string
+		switch g.r.Intn(6) {
+		case 0, 1:
+			e, typ = g.XStr(2), "str"
+		case 2, 3:
+			e, typ = g.XNum(2), "num"
+		case 4:
+			if g.r.Chance(1, 3) {
+				e, typ = g.XListOf(2, "str"), "list:str"
+			} else {
+				e, typ = g.XListOf(2, "num"), "list:num"
+			}
+		default:
+			e, typ = g.XBool(1), "bool"
+		}
+		name := fmt.Sprintf("f%d", len(g.aliases)+1)
+		fs = append(fs, e+" "+g.kw("as")+" "+name)
+		g.aliases = append(g.aliases, aliasInfo{name, typ, e})
+		g.note("alias-def")
+	}
+	return fs
+}
